@@ -248,6 +248,23 @@ const PATHS: [&str; 4] = ["/a", "/b", "/a/x", "/b/y"];
 /// Second alphabet (thorough): a sibling that extends the excluded / selected name textually.
 const PATHS2: [&str; 4] = ["/a", "/a-b", "/a/x", "/a-b/y"];
 
+pub fn cli_route(scratch: &Scratch) -> Vec<(Violation, Value)> {
+    let paths = &PATHS[..2];
+    let mut states = band_states(2, false);
+    states.push(BandState::Present { complete: false, hunks: vec![vec![0], vec![], vec![1]], tail_extra: 0 });
+    states.push(BandState::Present { complete: true, hunks: vec![vec![], vec![0, 1]], tail_extra: 0 });
+    let mut archives = Vec::new();
+    for a in &states {
+        for b in &states {
+            let bands = vec![a.clone(), b.clone()];
+            let dir = scratch.fresh("w");
+            write_archive(&dir, paths, &bands);
+            archives.push((describe(&bands, paths), dir));
+        }
+    }
+    crate::cli::c08(scratch, &archives)
+}
+
 pub fn run(report: &Report, budget: &Budget) {
     let thorough = report.thorough();
     // (number of paths, number of bands) sweeps
